@@ -547,3 +547,78 @@ Example C01_location_ex :
   Err (ELen (mkLenError 32 29 LsSlice LyIpv4Packet 18)).
 Proof. vm_compute. repeat split. Qed.
 (* ---- end audit follow-up ---- *)
+
+(* ---- audit follow-up (round 2) ---- *)
+(* ======================================================================== *)
+(* The public slice constructors that C01_single_layer_ctor_no_oob does not list, on an
+   ARBITRARY slice / byte string (any pointer offset, contents, length; accepted or rejected):
+     Ethernet2HeaderSlice::from_slice, SingleVlanHeaderSlice::from_slice (length test +
+       from_raw_parts(ptr, 14 | 4); transliterated in Parse/CtorsTotal2.v, they are the first
+       step of HdrModel's Ethernet2Header / SingleVlanHeader ::from_slice),
+     Ipv4ExtensionsSlice::from_slice for every start number (model: LaxSlices.Ipv4Exts),
+     the 11 typed ICMPv6 payload slices (`payload_ctor k`: XxxPayloadSlice::from_slice by kind;
+       model: CtlMsg/Model.v, Icmpv6PayloadSlice) and the two enum constructors
+       Icmpv6PayloadSlice::from_slice / from_type_u8, which only ever run one of them.
+   No run reaches a failing from_raw_parts / checked index / unwrap (Bug, resp. UB in the
+   vocabulary of CtlMsg); what an accepted value stores is a from_raw_parts window of the
+   input (the payload slices: the input itself; the authentication header of an
+   Ipv4ExtensionsSlice is the value IpAuthHeaderSlice::from_slice returns for the same slice,
+   so C01_single_layer_accessors covers its accessors), and no accessor of an accepted payload slice
+   (first_chunk().unwrap(), &slice[FIXED_PART_LEN..]) reaches its panic site.
+   Proofs: Parse/CtorsTotal2.v. *)
+From EP Require Import Parse.LaxSlices Parse.CtorsTotal2.
+
+Theorem C01_remaining_ctors_no_oob :
+  (forall s, nobug (Ethernet2HeaderSliceM.from_slice s)) /\
+  (forall s, nobug (SingleVlanHeaderSliceM.from_slice s)) /\
+  (forall nh s, nobug (Ipv4Exts.from_slice nh s)) /\
+  (forall k s n, payload_ctor k s <> CtlMsg.Spec.UB n) /\
+  (forall ty s n, P6.from_slice ty s <> CtlMsg.Spec.UB n) /\
+  (forall t c s n, P6.from_type_u8 t c s <> CtlMsg.Spec.UB n) /\
+  (forall s h, Ethernet2HeaderSliceM.from_slice s = Ok h -> s_len h = 14 /\ sub_of h s) /\
+  (forall s h, SingleVlanHeaderSliceM.from_slice s = Ok h -> s_len h = 4 /\ sub_of h s) /\
+  (forall nh s a nx rest, Ipv4Exts.from_slice nh s = Ok (a, nx, rest) ->
+     sub_of rest s /\
+     (forall h, a = Some h -> IpAuthHeaderSlice.from_slice s = Ok h /\ sub_of h s)) /\
+  (forall k s p, payload_ctor k s = CtlMsg.Spec.Ok p ->
+     p = (k, s) /\ forall n, P6.accessors p <> CtlMsg.Spec.UB n).
+Proof. exact remaining_ctors_no_bug. Qed.
+Print Assumptions C01_remaining_ctors_no_oob.
+
+(* the transliterations are what the struct decoders of Parse/HdrModel.v run first, and the
+   enum constructors run nothing but `payload_ctor` *)
+Theorem C01_remaining_ctors_are_used :
+  (forall s, EP.Parse.HdrModel.Ethernet2Header.from_slice s =
+             (let* h := Ethernet2HeaderSliceM.from_slice s in
+              let* rest := EP.Parse.HdrModel.idx_from s 14 in Ok (h, rest))) /\
+  (forall s, EP.Parse.HdrModel.SingleVlanHeader.from_slice s =
+             (let* h := SingleVlanHeaderSliceM.from_slice s in
+              let* rest := EP.Parse.HdrModel.idx_from s 4 in Ok (h, rest))) /\
+  (forall ty s, P6.from_slice ty s = payload_ctor (CtlMsg.Spec.payload_kind_of ty) s) /\
+  (forall t c s, exists k, P6.from_type_u8 t c s = payload_ctor k s).
+Proof. exact remaining_ctors_used. Qed.
+Print Assumptions C01_remaining_ctors_are_used.
+
+(* ---- non-vacuity ---------------------------------------------------------- *)
+(* short inputs are rejected (Err / ErrLen), sufficient ones accepted with the stated window;
+   the primitives behind the tests DO fail when run without them: from_raw_parts(ptr, 14) on
+   13 bytes, the accessors of a Redirect payload slice built around the length test *)
+Example C01_remaining_ctors_ex :
+  (ctor_outcome (Ethernet2HeaderSliceM.from_slice (mk_slice (repeat 0 13))),
+   match Ethernet2HeaderSliceM.from_slice (5, repeat 0 20) with Ok h => Some (win_of h) | _ => None end,
+   ctor_outcome (SingleVlanHeaderSliceM.from_slice (mk_slice [1;2;3])),
+   match SingleVlanHeaderSliceM.from_slice (mk_slice [1;2;3;4;5]) with Ok h => Some (win_of h) | _ => None end,
+   ctor_outcome (Ipv4Exts.from_slice 51 (mk_slice [17;1;0;0; 0;0;0;1; 0;0;0;2])),
+   ctor_outcome (Ipv4Exts.from_slice 51 (mk_slice [17;0;0;0; 0;0;0;1; 0;0;0;2])),
+   match Ipv4Exts.from_slice 51 (mk_slice ([17;1;0;0; 0;0;0;1; 0;0;0;2] ++ [9;9])) with
+   | Ok (Some h, nx, rest) => Some (win_of h, nx, win_of rest) | _ => None end) =
+  (1, Some (5, 14), 1, Some (0, 4), 0, 2, Some ((0, 12), 17, (12, 2))) /\
+  subU (mk_slice (repeat 0 13)) 0 14 = Bug SITE_SUB /\
+  payload_ctor CtlMsg.Spec.PkRedirect (repeat 0 31) =
+    CtlMsg.Spec.ErrLen (CtlMsg.Spec.mkLenError 32 31 CtlMsg.Spec.LsSlice CtlMsg.Spec.LIcmpv6 0) /\
+  payload_ctor CtlMsg.Spec.PkRedirect (repeat 0 32) = CtlMsg.Spec.Ok (CtlMsg.Spec.PkRedirect, repeat 0 32) /\
+  P6.accessors (CtlMsg.Spec.PkRedirect, repeat 0 31) = CtlMsg.Spec.UB 33 /\
+  P6.from_type_u8 136 0 (repeat 0 15) =
+    CtlMsg.Spec.ErrLen (CtlMsg.Spec.mkLenError 16 15 CtlMsg.Spec.LsSlice CtlMsg.Spec.LIcmpv6 0).
+Proof. vm_compute. repeat split. Qed.
+(* ---- end audit follow-up (round 2) ---- *)
